@@ -168,6 +168,9 @@ func genAttrChain(r *RNG, els []string, fresh string) Op {
 		default:
 			o.Scope2, o.Els2 = "els", subset(r, els, 1, 2)
 		}
+		if o.Re != "" && r.Bool(0.5) {
+			o.Re2 = r.Pick(valuePatterns) // the builder's matcher is changed between the two scope calls
+		}
 	}
 	return o
 }
@@ -258,6 +261,26 @@ func genStyleChain(r *RNG, els []string) Op {
 	default:
 		o.Scope = "els"
 		o.Els = subset(r, els, 1, 2)
+	}
+	if r.Bool(0.15) { // the style builder value is used for a second scope call, possibly with another matcher of the same kind
+		switch r.Intn(3) {
+		case 0:
+			o.Scope2 = "glob"
+		case 1:
+			o.Scope2, o.ElRe2 = "elsre", r.Pick(elPatterns)
+		default:
+			o.Scope2, o.Els2 = "els", subset(r, els, 1, 2)
+		}
+		if r.Bool(0.6) {
+			switch {
+			case o.Fn != "":
+				o.Fn2 = r.Pick(styleFns)
+			case len(o.Enum) > 0:
+				o.Enum2 = styleEnums[r.Intn(len(styleEnums))]
+			case o.Re != "":
+				o.Re2 = r.Pick(styleRes)
+			}
+		}
 	}
 	return o
 }
